@@ -352,6 +352,8 @@ def call_ext(it: Any, f: ExtV, args: List[Any], kwargs: Dict[str, Any], node: An
         # a process-state query whose answer the scenario fixes (e.g. torch.is_grad_enabled)
         it.log("call", node, callee=name, args=args, kwargs=kwargs, bound=None, result=it.ext_results[name])
         return it.ext_results[name]
+    if (name.startswith("metaclass-of:") or name == "builtins.type") and len(args) == 3 and isinstance(args[0], str) and isinstance(args[2], dict):
+        return it.dynamic_class(args[0], args[1], args[2], it.cur_mod)
     if name in ("torch.finfo", "torch.iinfo"):
         # numeric limits of a dtype: `bits` is a positive integer fixed by the dtype (symbolic when the dtype is)
         dt_ = args[0] if args else kwargs.get("type", ExtV("torch.float32"))
